@@ -7,10 +7,10 @@ META = {
  'outside': ['std::istream path', 'corruption beyond the preamble', 'compressed (serial version 4) images with symbolic payload', 'families other than those listed in bounds'],
 }
 GENERIC = [('kll', 'serde_kll', 0, 8, 12), ('kll', 'serde_kll', 1, 12, 12), ('kll', 'serde_kll', 2, 40, 12), ('kll', 'serde_kll', 3, 44, 12),
-           ('req', 'serde_req', 0, 8, 12), ('req', 'serde_req', 1, 12, 12), ('req', 'serde_req', 2, 36, 12), ('req', 'serde_req', 3, 40, 12),
            ('qs', 'serde_qs', 0, 8, 12), ('qs', 'serde_qs', 1, 28, 12), ('qs', 'serde_qs', 3, 36, 12),
            ]
-GENERIC_THOROUGH = [('cm', 'serde_cm', 0, 16, 12), ('cm', 'serde_cm', 2, 72, 12), ('fi', 'serde_fi', 0, 8, 12), ('fi', 'serde_fi', 2, 64, 12)]
+GENERIC_THOROUGH = [('req', 'serde_req', 0, 8, 12), ('req', 'serde_req', 1, 12, 12), ('req', 'serde_req', 2, 36, 12), ('req', 'serde_req', 3, 40, 12),
+           ('cm', 'serde_cm', 0, 16, 12), ('cm', 'serde_cm', 2, 72, 12), ('fi', 'serde_fi', 0, 8, 12), ('fi', 'serde_fi', 2, 64, 12)]
 def queries(tier):
     qs = []
     def size(kind, n, est):
@@ -47,5 +47,5 @@ def queries(tier):
         for m in range(0, size + 1):    # m == size: full image, round trip (C09)
             if tier == 'quick' and not (m % 4 == 0 or m >= size - 1): continue
             qs.append(Q(f'{fam}_nv{nv}_trunc{m:03d}', tu, 'c11_prefix.c', defs=dict({'FAM': fam, 'NV': nv, 'SIZE': size, 'M': m}, **({'USE_HASHMODEL': None} if fam == 'cm' else {})), tu_defs=({'VERIF_STUB_HASH': None} if fam == 'cm' else {}), unwind=unw,
-                        unwindset={'^harness$': 260, '^(verif_mem.*|verif_new.*|fnv.*|emit.*)$': 140}, timeout=(200 if tier == 'quick' else 900), native_vectors=50, c_defs={'VERIF_NEW_CAPN': 40}, mem_gb=16))
+                        unwindset={'^harness$': 260, '^(verif_mem.*|verif_new.*|fnv.*|emit.*)$': 140}, timeout=(200 if tier == 'quick' else 900), native_vectors=50, c_defs={'VERIF_NEW_CAPN': (120 if fam == 'req' else 40)}, mem_gb=16))
     return qs
